@@ -484,9 +484,11 @@ var pinnedProbes = []pinned{
 	{"for (var i = 0, j = a instanceof b in c;;);", 18, false, false},
 	{"for (x = a >= b + c in d;;);", 18, false, false},
 	{"for (x = (a < b in c);;);", 19, true, true},
-	{"function f(a,){}", 20, false, true},
-	{"x = function(a, b,){ return a };", 20, false, true},
-	{"x = {set p(v,){}};", 20, false, true},
+	// fixed finding C04-param-trailing-comma (e7d0cb4): regression cases, ES5 verdict expected
+	{"function f(a,){}", 20, false, false},
+	{"x = function(a, b,){ return a };", 20, false, false},
+	{"x = {set p(v,){}};", 20, false, false},
+	{"function f(a, b){}", 19, true, true},
 	{"function f(,a){}", 20, false, false},
 	{"function f(a,,b){}", 20, false, false},
 	{"x = /a/ g", 15, false, true},
